@@ -137,7 +137,9 @@ def argument(draw, kind, scope, ctx, depth, pyscope=None):
             opts += [('py', 'len(%s)' % x)]
         return draw(st.sampled_from(opts))
     if kind == 'v':
-        opts = [('py', '1'), ('py', '"q"'), ('py', 'None'), ('py', '[1, 2]'), ('py', '{"k": 1}'), ('lit', 'a')]
+        # (values that are == but of different types are different arguments: F12, fixed)
+        opts = [('py', '1'), ('py', '"q"'), ('py', 'None'), ('py', '[1, 2]'), ('py', '{"k": 1}'), ('lit', 'a'),
+                ('py', 'True'), ('py', '1.0'), ('py', '[1.0, 2]'), ('py', '{"k": True}'), ('py', '0'), ('py', 'False')]
         for x in _names(scope, 'siv'):
             opts += [('ref', x), ('ref', x)]
         for x in _names(pyscope, 'siv'):
@@ -395,8 +397,24 @@ def family_rules(draw, idx, ctx):
                                           ('call', 'Tval', [('ref', x)], []),
                                           ('apply', ('rx', '[ab]'), ('py', 'lambda v: (v, %s)' % x))]))
     name = 'F%d' % idx
-    fam = draw(st.integers(0, 16))
+    fam = draw(st.integers(0, 17))
     x = draw(st.sampled_from(['x', 'y', 'n']))
+    if fam == 17:
+        # calls at one position that differ ONLY in a keyword argument (value or parser)
+        tok = draw(st.sampled_from([('lit', 'a'), ('rx', '[ab]'), ('ref', 'W')]))
+        v1, v2 = draw(st.sampled_from([(('py', '1'), ('py', '2')), (('py', '"q"'), ('py', '"r"')), (('py', '[1]'), ('py', '[2]')),
+                                       (('py', '0'), ('py', 'False'))]))
+        how = draw(st.integers(0, 2))
+        if how == 0:
+            c1 = ('call', 'Tkw', [tok], [('v', v1)])
+            c2 = ('call', 'Tkw', [tok], [('v', v2)])
+        elif how == 1:
+            c1 = ('call', 'Tkw', [], [('p', tok), ('v', v1)])
+            c2 = ('call', 'Tkw', [], [('v', v2), ('p', tok)])
+        else:
+            c1 = ('call', 'Tkw', [], [('v', v1), ('p', ('lit', 'a'))])
+            c2 = ('call', 'Tkw', [], [('v', v1), ('p', ('rx', '[ab]+'))])
+        return [('rule', name, None, ('choice', [('left', c1, ('lit', '2')), c2, ('seq', [('expect', c2), c1])]))]
     if fam >= 15:
         # the same name re-bound to depth 3-4, each level used again after the level inside it is
         # done (matched or not): every let gives back exactly the binding it found
